@@ -247,6 +247,83 @@ def _compare_with_baseline(doc_in, base, out):
     return None
 
 
+# ------------------------------------------------------------------------------------- (c) natural analysis failures
+
+def poison_candidates():
+    """Blocks on which the analysis itself gives up (no injection): whether they do is established at run time."""
+    P, I = B.P, B.I
+    return [[I("PC"), P(1), I("ADD"), P(0), I("SSTORE"), I("STOP")],
+            [I("PC"), I("DUP1"), I("ADD"), I("PUSH [tag]", "1"), I("JUMP")]]
+
+
+def natural_docs(poison):
+    """Two contracts, each with init code, run code and a second code-bearing data section; the poison block is put
+    at every (contract, section, index) in turn.  Yields (placement, document with the poison, fault-free document
+    with a harmless block of the same shape in its place)."""
+    P, I = B.P, B.I
+    good = [[P(0), I("DUP2"), I("ADD"), P(0x40), I("MSTORE"), I("PUSH [tag]", "1"), I("JUMP")],
+            [P(1), I("DUP2"), I("ADD"), I("SWAP1"), I("POP"), P(0), I("ADD"), I("PUSH [tag]", "1"), I("JUMP")],
+            [I("CALLVALUE"), I("DUP1"), I("ISZERO"), I("ISZERO"), I("ISZERO"), I("PUSH [tag]", "1"), I("JUMPI")],
+            [P(1), P(2), I("SWAP1"), I("SUB"), P(0), I("SSTORE"), P(0), I("DUP1"), I("RETURN")]]
+    harmless = [I("CALLVALUE"), P(1), I("ADD"), P(0), I("SSTORE"), I("STOP")]
+    layout = {"a.sol:A": {"init": [good[2], good[3]], "run": [good[1], good[0], good[3]], "aux": [good[1], good[3]]},
+              "b.sol:B": {"init": [good[1], good[3]], "run": [good[0], good[3]], "aux": [good[2], good[3]]}}
+
+    def build(repl):
+        cs = {}
+        for cname, secs in layout.items():
+            secs = {k: list(v) for k, v in secs.items()}
+            if repl and repl[0] == cname:
+                secs[repl[1]][repl[2]] = repl[3]
+            cs[cname] = docs.make_contract(secs["init"], secs["run"], more_run_blocks=[secs["aux"]])
+        return docs.make_doc(cs)
+
+    for cname, secs in layout.items():
+        for sec, blks in secs.items():
+            for idx in range(len(blks)):
+                if cname == "b.sol:B" and idx > 0:
+                    continue
+                yield [cname, sec, idx], build((cname, sec, idx, poison)), build((cname, sec, idx, harmless))
+
+
+def setup_c(cfg):
+    repo.load()
+    return {"cfg": cfg}
+
+
+def work_c(st, unit):
+    poison, placement, doc_p, doc_f = unit
+    # the fault-free document first: state left behind by a failure must not reach it
+    exc_f, out_f = run_doc(st["cfg"], doc_f, "nf")
+    exc_p, out_p = run_doc(st["cfg"], doc_p, "np")
+    res = {"problem": None, "failed_naturally": False, "others_optimized": 0}
+    if exc_f or out_f is None:
+        return dict(res, problem="fault-free-run-failed: %s" % exc_f)
+    if exc_p:
+        return dict(res, problem="exception-escaped", detail=exc_p)
+    if out_p is None:
+        return dict(res, problem="no-output")
+    bi, bf, bp = _blocks(doc_p), _blocks(out_f), _blocks(out_p)
+    bif = _blocks(doc_f)
+    if not (len(bi) == len(bf) == len(bp)):
+        return dict(res, problem="block-structure-changed")
+    where = [k for k in range(len(bi)) if bi[k][2] != bif[k][2]]
+    if len(where) != 1:
+        return dict(res, problem="harness: documents differ in %d blocks" % len(where))
+    k0 = where[0]
+    res["failed_naturally"] = docs.block_of_items(bp[k0][2]) == docs.block_of_items(bi[k0][2])
+    diff = [k for k in range(len(bf)) if k != k0 and bf[k][2] != bp[k][2]]
+    res["others_optimized"] = sum(1 for k in range(len(bf)) if k != k0 and bp[k][2] != bi[k][2])
+    if diff:
+        k = diff[0]
+        return dict(res, problem="other-block-differs", detail={
+            "block": [list(bp[k][0]), bp[k][1]], "fault_free": B.to_text(docs.block_of_items(bf[k][2])),
+            "with_failing_block": B.to_text(docs.block_of_items(bp[k][2]))})
+    if docs.strip_code(out_f) != docs.strip_code(out_p):
+        return dict(res, problem="metadata-differs")
+    return res
+
+
 # ------------------------------------------------------------------------------------------------------------ main
 
 def main(tier, seed, only=None):
@@ -353,6 +430,41 @@ def main(tier, seed, only=None):
 
                 tasks = [((cfg, doc), ch) for ch in pool.chunks(units, 12)]
                 pool.run_tasks(tasks, work_b, setup=setup_b, unit_timeout=120, on_result=on_b)
+    # ---- (c) blocks on which the analysis fails by itself, at every placement of a two-contract document
+    if not only or only == "c":
+        cfg_c = [("-greedy",)] if tier == "quick" else [("-greedy",), ("-greedy", "-storage"), ("-greedy", "-size")]
+        units = []
+        for pb in poison_candidates():
+            for placement, dp, df in natural_docs(pb):
+                units.append((pb, placement, dp, df))
+        stats.update({"c_units": 0, "c_failed_naturally": 0, "c_others_optimized": 0})
+
+        def on_c(cfg, unit, status, value):
+            chk.add("evaluations")
+            stats["c_units"] += 1
+            if status != "ok":
+                chk.violation("natural;harness-%s" % status, {"part": "c", "config": list(cfg), "detail": str(value)[:300]})
+                return
+            if value["failed_naturally"]:
+                stats["c_failed_naturally"] += 1
+            stats["c_others_optimized"] += value["others_optimized"]
+            if value["problem"]:
+                pr = value["problem"]
+                if pr.startswith("harness") or pr.startswith("fault-free-run-failed"):
+                    chk.violation("harness-" + pr[:40], {"detail": pr})
+                    return
+                chk.violation("natural;%s;%s" % (pr, unit[1][1]),
+                              {"part": "c", "config": list(cfg), "poison": B.to_text(unit[0]), "placement": unit[1],
+                               "doc": unit[2], "doc_fault_free": unit[3], "detail": value.get("detail")})
+
+        pool.run_tasks([(cfg, [u]) for cfg in cfg_c for u in units], work_c, setup=setup_c, unit_timeout=180,
+                       on_result=on_c)
+        chk.cov["natural_failures"] = {"documents": stats["c_units"], "block_kept_unchanged": stats["c_failed_naturally"],
+                                       "other_blocks_optimized": stats["c_others_optimized"],
+                                       "rule": "a block on which the analysis gives up by itself (PC whose value is used) "
+                                               "at every placement of a two-contract, three-section document; all other "
+                                               "blocks must come out exactly as in the run of the same document with a "
+                                               "harmless block in that place"}
     chk.cov.update({"family_pipeline_runs": stats["a_units"], "family_blocks_changed": stats["a_changed"],
                     "family_raised": stats["a_raised"], "family_over_budget": stats["a_budget"],
                     "max_cpu_s": round(max_cpu[0], 3), "max_rss_growth_kb": max_rss[0],
@@ -394,6 +506,12 @@ def replay(path):
                        unit_timeout=CPU_BUDGET_S * 2, on_result=on_r)
         v = res.get("value")
         bad = res.get("status") != "ok" or v["raised"] or v["cpu"] > CPU_BUDGET_S
+    elif w.get("part") == "c":
+        from .c01 import parse_text
+        pool.run_tasks([(tuple(w["config"]), [(parse_text(w["poison"]), w["placement"], w["doc"], w["doc_fault_free"])])],
+                       work_c, setup=setup_c, unit_timeout=300, on_result=on_r)
+        v = res.get("value")
+        bad = res.get("status") == "ok" and bool(v["problem"])
     else:
         si = [s[1] for s in SEAMS].index(w["seam"])
         pool.run_tasks([((tuple(w["config"]), w["doc"]), [(si, w["nth_call"], w["exception"])])], work_b,
